@@ -69,6 +69,8 @@ func classify(s *Spec, t *Taint, inMark bool) {
 		U(2)
 		Sf(3)
 		Sf(4)
+	case "hintf0", "detailf0":
+		U(0)
 	case "hintf", "detailf":
 		// hints and details are unsafe as a whole
 		U(0)
@@ -89,7 +91,7 @@ func classify(s *Spec, t *Taint, inMark bool) {
 		U(1)
 	case "domnew", "goerr", "pkgnew", "grpcstatus", "unknownnet", "uleafptr", "uleafval", "uleafnc", "uleaffmtold", "rleaf", "risleaf", "uoptleaf",
 		"hint", "detail", "handledmsg", "goerrorf", "goerrorfsuffix", "pkgmsg", "pkgwrap", "uwrapnofmt", "uwrapcause", "uwrapsuffix", "uwrapoverride", "uopt", "uwrapfmtold", "rwrapfull", "uwrapasself", "uleafas",
-		"goerrorfmulti", "umulti", "rmulti", "umulticause", "umulticauser":
+		"goerrorfmulti", "umulti", "rmulti", "umulticause", "umulticauser", "umultias":
 		U(0)
 	case "addrerr", "dnsleaf", "dnswrap", "uleafformatter", "uwrapformatter", "uhinter":
 		U(0)
